@@ -381,8 +381,23 @@ def search(ctx, B, failing, stats):
             b2 = MwpBound(bs)
             if not (b2 == b) or seqs(b2.bound_triple) != want_t or b2.bound_str != bs:
                 fail("parse", f"MwpBound(bound_str) is a different bound (text {bs!r})", inp, want_t, seqs(b2.bound_triple))
-            # significant filter: keys k over the names + one outsider
-            keys = (names + ["q"])[:5]
+            # the same bound reached through another history: reads in between, variables added directly to the three lists
+            ev += 1
+            b3 = MwpBound()
+            todo3 = [("x", v) for v in xs] + [("y", v) for v in ys] + [("z", v) for v in zs]
+            rng.shuffle(todo3)
+            for which, v in todo3:
+                _ = (b3.bound_str, b3.bound_triple, MwpBound.bound_poly(b3, True))          # a read must not freeze anything
+                if rng.random() < 0.5:
+                    getattr(b3, which).add(v)
+                else:
+                    b3.append({"x": "m", "y": "w", "z": "p"}[which], v)
+            if seqs(b3.bound_triple) != want_t or b3.bound_str != bs or MwpBound.bound_poly(b3, False) != texts["normal"] or not (b3 == b):
+                fail("history", "history: a bound built with reads in between / by adding to the lists directly differs from the same bound built by append",
+                     dict(inp, order=[list(t) for t in todo3]), {"triple": want_t, "text": bs, "poly": texts["normal"]},
+                     {"triple": seqs(b3.bound_triple), "text": b3.bound_str, "poly": MwpBound.bound_poly(b3, False)})
+            # significant filter: keys k over the names, names that extend / are a prefix of them, + one outsider
+            keys = list(dict.fromkeys(names[:3] + [n + "0" for n in names[:2]] + [n[:-1] for n in names[:2] if len(n) > 1] + ["q"]))
             bd = Bound({k: bs for k in keys})
             for compact in (False, True):
                 ev += 1
